@@ -46,7 +46,7 @@ func runC05(p *Prog, r *Result) {
 	r.Rule("R05c", "printer queue: flushComments writes every queued comment before emptying; a set-aside queue is restored on every path; no in-place truncation while a saved copy is live", 3)
 	r.Rule("R05d", "a function that moves accComs into a node it may not return restores them on that exit (or every caller reports an error)", 1)
 	r.Rule("R05e", "a node's comment field is plainly overwritten only when it is provably still empty (fresh node, first store) or its old contents move in the same statement", 12)
-	r.Rule("R05f", "under Minify, comment text is written only under the shebang test and the first-line test, nothing is queued, and every direct write of comment text elsewhere in the printer is under !minify", 4)
+	r.Rule("R05f", "under Minify, comment text is written only under the shebang test, the first-line test and the first-column test (directly or through a predicate that is their conjunction), nothing is queued, and every direct write of comment text elsewhere in the printer is under !minify", 4)
 
 	checkCommentSinks(p, r, si)
 	checkAccComs(p, r, si)
@@ -1320,17 +1320,27 @@ func checkMinifyGate(p *Prog, r *Result, si *syntaxInfo) {
 				if nested {
 					continue
 				}
-				shebang := underEdges(g, b, func(e *FEdge) bool {
-					be, ok := e.Cond.(*ast.BinaryExpr)
-					if !ok || be.Op != token.NEQ || !e.Pol {
-						return false
+				// what an edge tells us: its own condition, and — when the condition is a call of a predicate whose body
+				// is a single `return <conjunction>` — each conjunct of that
+				atomsOf := func(e *FEdge) []ast.Expr {
+					if e.Cond == nil || !e.Pol || e.Tag != nil || e.TypeCase {
+						return nil
 					}
-					cc, ok := ast.Unparen(be.X).(*ast.CallExpr)
-					return ok && strings.HasSuffix(qualName(calleeOf(info, cc)), "fileutil.Shebang") && exprString(be.Y) == `""`
-				})
-				firstLine := underEdges(g, b, func(e *FEdge) bool {
-					be, ok := e.Cond.(*ast.BinaryExpr)
-					if !ok || be.Op != token.EQL || !e.Pol || exprString(be.Y) != "1" {
+					out := []ast.Expr{e.Cond}
+					if cc, ok := ast.Unparen(e.Cond).(*ast.CallExpr); ok {
+						if callee := calleeOf(info, cc); callee != nil {
+							if hd := p.FuncOrMethodDecl("syntax", callee.Name()); hd != nil && hd.Body != nil && len(hd.Body.List) == 1 {
+								if rs, ok := hd.Body.List[0].(*ast.ReturnStmt); ok && len(rs.Results) == 1 {
+									out = append(out, conjuncts(rs.Results[0])...)
+								}
+							}
+						}
+					}
+					return out
+				}
+				posCallIs1 := func(a ast.Expr, method string) bool {
+					be, ok := ast.Unparen(a).(*ast.BinaryExpr)
+					if !ok || be.Op != token.EQL || exprString(be.Y) != "1" {
 						return false
 					}
 					cc, ok := ast.Unparen(be.X).(*ast.CallExpr)
@@ -1338,12 +1348,34 @@ func checkMinifyGate(p *Prog, r *Result, si *syntaxInfo) {
 						return false
 					}
 					s2, ok := cc.Fun.(*ast.SelectorExpr)
-					if !ok || s2.Sel.Name != "Line" {
+					if !ok || s2.Sel.Name != method {
 						return false
 					}
 					// a position of the comment itself: c.Hash.Line() / c.Pos().Line()
 					return namedOf(info.TypeOf(s2.X)) == si.posT && strings.Contains(exprString(s2.X), "Hash") || strings.Contains(exprString(s2.X), "Pos()")
-				})
+				}
+				anyAtom := func(pred func(ast.Expr) bool) func(*FEdge) bool {
+					return func(e *FEdge) bool {
+						for _, a := range atomsOf(e) {
+							if pred(a) {
+								return true
+							}
+						}
+						return false
+					}
+				}
+				shebang := underEdges(g, b, anyAtom(func(a ast.Expr) bool {
+					be, ok := ast.Unparen(a).(*ast.BinaryExpr)
+					if !ok || be.Op != token.NEQ {
+						return false
+					}
+					cc, ok := ast.Unparen(be.X).(*ast.CallExpr)
+					return ok && strings.HasSuffix(qualName(calleeOf(info, cc)), "fileutil.Shebang") && exprString(be.Y) == `""`
+				}))
+				firstLine := underEdges(g, b, anyAtom(func(a ast.Expr) bool { return posCallIs1(a, "Line") }))
+				firstCol := underEdges(g, b, anyAtom(func(a ast.Expr) bool { return posCallIs1(a, "Col") }))
+				r.Check(firstCol, "R05f", "syntax.(Printer).comments#minify write guarded by the first-column test", c.Pos(), "under <comment position>.Col() == 1",
+					"under Minify a comment is written without testing that it starts the line: a shebang-looking comment after code on the first line is kept, and it is written at once, glued to the code before it")
 				r.Check(shebang, "R05f", "syntax.(Printer).comments#minify write guarded by the shebang test", c.Pos(), "under fileutil.Shebang(...) != \"\"",
 					"under Minify a comment is written without the shebang test: comments other than a shebang survive")
 				r.Check(firstLine, "R05f", "syntax.(Printer).comments#minify write guarded by the first-line test", c.Pos(), "under <comment position>.Line() == 1",
